@@ -265,11 +265,19 @@ def gen_float_case(rng, idx):
         parts.append({"pos": pos, "shift": sh, "ang": ang, "tomo": rng.randint(1, ntomo)})
     # tomogram numbers as they occur in practice: 1.., 0.. (0 is a number like any other), date-coded large consecutive
     # ones, arbitrary unsorted ones
-    mode = rng.randrange(4)
-    ids = {0: [1, 2, 3], 1: [0, 1, 2], 2: [240115, 240116, 240117], 3: [17, 3, 5]}[mode]
+    mode = rng.randrange(5)
+    ids = {0: [1, 2, 3], 1: [0, 1, 2], 2: [240115, 240116, 240117], 3: [17, 3, 5], 4: [120, 300, 250]}[mode]
     for p_ in parts:
         p_["tomo"] = ids[p_["tomo"] - 1]
     dims = {ids[t - 1]: [rng.randint(100, 400), rng.randint(100, 400), rng.randint(50, 300)] for t in range(1, ntomo + 1)}
+    if mode == 4:
+        # numbers that are ids AND plausible sizes: a tomogram may be exactly as thick / wide as another one's number
+        for t in list(dims):
+            others = [v for v in ids if v != t]
+            if rng.random() < 0.7:
+                dims[t][2] = rng.choice(others)
+            if rng.random() < 0.3:
+                dims[t][0] = rng.choice(others)
     steps = []
     for _ in range(rng.randint(1, 6)):
         o = rng.choice(["update", "scale", "shift", "shift", "rotate", "rotate", "flip"])
